@@ -88,8 +88,87 @@ def replay_population(col, item):
                                   "concrete": {"embedding": emb_name, "layout": layout, "style": style},
                                   "expected": b, "observed": a})
                     break
+        # independence of OTHER objects: a copy of the fileset that is narrowed to a tag no file carries (and asked once)
+        # leaves the answers of the original as they were
+        if "{tag}" in tree.tmpl:
+            try:
+                cp = fs.copy()
+                cp.set_placeholders(tag="ZZ")
+                closest(cp, tree, emb.half(case["close"][0][0]), None)
+            except Exception as ex:
+                col.violation("copy-raises-" + type(ex).__name__, {"abstract": {"F": case["F"]}, "observed": repr(ex)[:200]})
+            else:
+                for h, adm in case["close"]:
+                    try:
+                        got = closest(fs, tree, emb.half(h), None)
+                    except Exception as ex:
+                        got = "raised " + type(ex).__name__
+                    col.count(1)
+                    if got not in adm:
+                        col.violation("closest-changed-by-narrowing-a-copy",
+                                      {"abstract": {"F": case["F"], "half_tick": h, "R": R},
+                                       "concrete": {"embedding": emb_name, "layout": layout, "style": style},
+                                       "expected_any_of": adm, "observed": got})
+                        break
     finally:
         tree.remove()
+
+
+def failed_read(col, fmt):
+    """Compressed files and a handler whose read fails once: fileset[t] raises, and afterwards the same object still answers
+    find_closest(t) / fileset[t] with files OF THE FILESET (the answers it gave before the failure)."""
+    import datetime as dt
+    import shutil
+    import tempfile
+    from typhon.files import FileSet
+    from typhon.files.handlers.common import FileHandler
+    root = tempfile.mkdtemp(prefix="verif-c16-")
+    try:
+        fail = {"on": False}
+        def reader(file_info):
+            if fail["on"]:
+                raise IOError("transient read failure")
+            with open(file_info.path) as f:
+                return f.read()
+        def writer(data, file_info):
+            with open(file_info.path, "w") as f:
+                f.write(data)
+        fs = FileSet(os.path.join(root, "{year}{month}{day}.txt." + fmt), handler=FileHandler(reader=reader, writer=writer))
+        days = [dt.datetime(2020, 2, 26) + dt.timedelta(days=2 * i) for i in range(4)]
+        for d in days:
+            fs[d] = d.strftime("%Y%m%d")
+        probes = [days[0] - dt.timedelta(hours=5), days[1], days[1] + dt.timedelta(hours=30), days[3] + dt.timedelta(days=3)]
+        def answers():
+            out = []
+            for t in probes:
+                r = fs.find_closest(t)
+                out.append((os.path.relpath(r.path, root), fs[t]))
+            return out
+        before = answers()
+        want = [(d.strftime("%Y%m%d") + ".txt." + fmt, d.strftime("%Y%m%d")) for d in (days[0], days[1], days[2], days[3])]
+        col.count(len(probes))
+        if before != want:      # (day 1 + 30 h is 18 h from day 2's file and 30 h from day 1's)
+            col.violation("closest-compressed-wrong", {"abstract": {"compression": fmt}, "expected": want, "observed": before})
+            return
+        fail["on"] = True
+        raised = 0
+        for t in probes:
+            try:
+                fs[t]
+            except IOError:
+                raised += 1
+        fail["on"] = False
+        try:
+            after = answers()
+        except Exception as ex:
+            after = "raised " + repr(ex)[:200]
+        col.count(len(probes))
+        if raised != len(probes) or after != before:
+            col.violation("closest-after-failed-read", {"abstract": {"compression": fmt, "failed_reads": raised},
+                                                        "expected": before, "observed": after})
+        col.nontrivial.add("failed-read-" + fmt)
+    finally:
+        shutil.rmtree(root, ignore_errors=True)
 
 
 def single_file(col, _):
@@ -200,6 +279,7 @@ def run(ctx):
                 items.append((c, emb_name, layout, c01.pick_style(c01.styles_for(c, emb_name), layout, n + k), R))
     pmap(ctx, replay_population, items)
     pmap(ctx, single_file, [0], procs=1)
+    pmap(ctx, failed_read, ["gz", "zip", "bz2"], procs=1)
     ctx.traces += len(items)
     ctx.sample({"population": items[0][0]["F"], "admissible_by_half_tick": items[0][0]["close"][:6],
                 "replayed_as": list(items[0][1:5])})
